@@ -283,7 +283,9 @@ func (m *Machine) feasible(c *smt.Term) bool {
 	if len(vars) > 200 {
 		vars = nil
 	}
+	m.Sol.Quick, m.Sol.OneShotMs = true, 8000
 	r, model := m.Sol.Model(c, vars)
+	m.Sol.Quick, m.Sol.OneShotMs = false, 0
 	if r == smt.Unknown {
 		m.Ex.noteUnknown("feasibility", m.Sol.LastErr)
 	}
